@@ -48,7 +48,7 @@ func (r *Runner) replayPartial(l *Line) lineResult {
 			return lineResult{fails: w.fails, calls: w.mon.ncalls, insts: len(w.insts), nontrivial: true}
 		}
 		if steps[i].A != "badundo" {
-			w.checkRoots(steps[i].Post, "C01", "C09")
+			w.checkRoots(steps[i].Post, "C01", "C09", "C05")
 		}
 	}
 	if l.Step.A != "missq" && l.Step.A != "badundo" {
@@ -133,6 +133,12 @@ func (w *World) partialStep(st *Step) {
 	for idx, in := range w.insts {
 		in := in
 		g := w.mon.begin(in, st.A)
+		// a caller that decodes every message into the same buffers: the arguments of consecutive
+		// calls share their backing arrays (instance map.part.63.reuse)
+		gH, gU := g.H, g.U
+		if in.bufReuse {
+			gH, gU = in.reuseH, in.reuseU
+		}
 		var err error
 		pan := protect(func() {
 			switch st.A {
@@ -141,16 +147,16 @@ func (w *World) partialStep(st *Step) {
 				for i := range leaves {
 					leaves[i] = utreexo.Leaf{Hash: w.sy.H(leafTerm(int(w.n) + i)), Remember: rem[i]}
 				}
-				err = in.M.Modify(g.L("adds", leaves), g.H("delHashes", hashes),
-					utreexo.Proof{Targets: g.U("proof.Targets", proof.Targets), Proof: g.H("proof.Proof", proof.Proof)})
+				err = in.M.Modify(g.L("adds", leaves), gH("delHashes", hashes),
+					utreexo.Proof{Targets: gU("proof.Targets", proof.Targets), Proof: gH("proof.Proof", proof.Proof)})
 			case "badmod":
 				// a block that deletes a leaf the instance does not remember: it must be refused
 				leaves := make([]utreexo.Leaf, st.K)
 				for i := range leaves {
 					leaves[i] = utreexo.Leaf{Hash: w.sy.H(leafTerm(int(w.n) + i)), Remember: true}
 				}
-				e := in.M.Modify(g.L("adds", leaves), g.H("delHashes", hashes),
-					utreexo.Proof{Targets: g.U("proof.Targets", proof.Targets), Proof: g.H("proof.Proof", proof.Proof)})
+				e := in.M.Modify(g.L("adds", leaves), gH("delHashes", hashes),
+					utreexo.Proof{Targets: gU("proof.Targets", proof.Targets), Proof: gH("proof.Proof", proof.Proof)})
 				if e == nil {
 					w.fail(props, in, "badmod.accepted", "a block deleting a leaf that the partial forest does not remember was applied", "error", "nil")
 				}
@@ -163,7 +169,7 @@ func (w *World) partialStep(st *Step) {
 				} else {
 					bp[0] = w.sy.H(junkTerm(7))
 				}
-				if e := in.M.Verify(g.H("delHashes", bh), utreexo.Proof{Targets: g.U("proof.Targets", proof.Targets), Proof: g.H("proof.Proof", bp)}, true); e == nil {
+				if e := in.M.Verify(gH("delHashes", bh), utreexo.Proof{Targets: gU("proof.Targets", proof.Targets), Proof: gH("proof.Proof", bp)}, true); e == nil {
 					w.fail([]string{"C03"}, in, "unsound", "Verify(remember) accepted a proof in which the "+st.Bad+" was replaced by a fresh value", "error", "nil")
 				}
 				// the partial entry point: the hashes for the positions the instance says it lacks
@@ -185,26 +191,26 @@ func (w *World) partialStep(st *Step) {
 					}
 				}
 				if len(ph) == len(missing) && (st.Bad == "leafhash" || (len(missing) > 0 && all[0] == missing[0])) {
-					if e := in.M.VerifyPartialProof(g.U("targets", proof.Targets), g.H("hashes", bh), g.H("proofHashes", ph), true); e == nil {
+					if e := in.M.VerifyPartialProof(gU("targets", proof.Targets), gH("hashes", bh), gH("proofHashes", ph), true); e == nil {
 						w.fail([]string{"C03"}, in, "unsound", "VerifyPartialProof(remember) accepted a proof in which the "+st.Bad+" was replaced by a fresh value", "error", "nil")
 					}
 				}
 			case "badundo":
 				// refused or not, the call must return and leave the forest usable (checked below)
-				_ = in.M.Undo(uint64(st.K), utreexo.Proof{Targets: g.U("proof.Targets", proof.Targets)},
-					g.H("delHashes", hashes), g.H("prevRoots", w.sy.Hs(st.Pre)))
+				_ = in.M.Undo(uint64(st.K), utreexo.Proof{Targets: gU("proof.Targets", proof.Targets)},
+					gH("delHashes", hashes), gH("prevRoots", w.sy.Hs(st.Pre)))
 			case "vrem":
-				err = in.M.Verify(g.H("delHashes", hashes),
-					utreexo.Proof{Targets: g.U("proof.Targets", proof.Targets), Proof: g.H("proof.Proof", proof.Proof)}, true)
+				err = in.M.Verify(gH("delHashes", hashes),
+					utreexo.Proof{Targets: gU("proof.Targets", proof.Targets), Proof: gH("proof.Proof", proof.Proof)}, true)
 			case "ingest":
-				err = in.M.Ingest(g.H("delHashes", hashes),
-					utreexo.Proof{Targets: g.U("proof.Targets", proof.Targets), Proof: g.H("proof.Proof", proof.Proof)})
+				err = in.M.Ingest(gH("delHashes", hashes),
+					utreexo.Proof{Targets: gU("proof.Targets", proof.Targets), Proof: gH("proof.Proof", proof.Proof)})
 			case "prune":
-				err = in.M.Prune(g.H("hashes", hashes))
+				err = in.M.Prune(gH("hashes", hashes))
 			case "undo":
 				err = in.M.Undo(uint64(st.K),
-					utreexo.Proof{Targets: g.U("proof.Targets", proof.Targets), Proof: g.H("proof.Proof", proof.Proof)},
-					g.H("delHashes", hashes), g.H("prevRoots", w.sy.Hs(st.Pre)))
+					utreexo.Proof{Targets: gU("proof.Targets", proof.Targets), Proof: gH("proof.Proof", proof.Proof)},
+					gH("delHashes", hashes), gH("prevRoots", w.sy.Hs(st.Pre)))
 			case "fromroots":
 				m := utreexo.NewMapPollardFromRoots(w.sy.Hs(st.Roots), st.N, false)
 				w.insts[idx] = &Inst{Name: "map.fromroots.63", Kind: KMapPart, Rows: 63, M: &m, cached: map[int]bool{}}
